@@ -115,7 +115,7 @@ class Wiring:
             loops = []
             for head, body_paths in rec['loops']:
                 # `for x in [a, b, c]: self.out.write(bytes([len(x), *[v.name for v in x]]))`
-                if head[0] != 'for' or head[2][0] != 'list':
+                if head[0] != 'for' or head[2][0] not in ('list', 'tuple'):
                     raise AnalysisError(f'{ci.name}.{meth}: loop over a non-literal collection in the serializer')
                 elems = head[2][1]
                 bp = [b for b in body_paths if b.end[0] != 'raise']
@@ -177,3 +177,35 @@ def show_operand(o) -> str:
     if o[0] == 'len':
         return f'len({show(o[1])})'
     return f'{"reversed " if o[2] else ""}{"names of " if o[0] == "names" else "each of "}{show(o[1])}'
+
+
+def canon_components(v, conds, py: PyRepo):
+    """`C.extract(X)[i]` / `C.unwrap(X)[i]` and `X.<field>` under an `isinstance(X, C)` / `case C(..)` decision are the same
+    destructuring: both become ('comp', X, C, field)."""
+    known = {}
+    for c, b in conds:
+        if b is True and c[0] == 'isinstance' and c[2][0] == 'name':
+            known[c[1]] = c[2][1]
+        if b is True and c[0] == 'call' and c[1] == ('name', 'isinstance') and len(c[2]) == 2 and c[2][1][0] == 'name':
+            known[c[2][0]] = c[2][1][1]
+
+    def go(x):
+        if not isinstance(x, tuple) or not x:
+            return x
+        if x[0] == 'item' and isinstance(x[2], int) and x[1][0] == 'call' and x[1][1][0] == 'attr' and x[1][1][2] in ('extract', 'unwrap') \
+                and x[1][1][1][0] == 'name' and len(x[1][2]) == 1:
+            ctor = x[1][1][1][1]
+            try:
+                flds = pattern_fields(py, ctor)
+            except Exception:  # noqa: BLE001
+                flds = []
+            if 0 <= x[2] < len(flds):
+                return ('component', go(x[1][2][0]), ctor, flds[x[2]])
+        if x[0] == 'attr' and x[1] in known:
+            ctor = known[x[1]]
+            ci = py.find_class(ctor, 'pattern')
+            if ci is not None and x[2] in [n for n, _t in ci.fields]:
+                return ('component', go(x[1]), ctor, x[2])
+        return tuple(go(y) if isinstance(y, tuple) else y for y in x)
+
+    return go(v)
